@@ -171,6 +171,7 @@ int Ym2612Private::LFO_FREQ_TAB[LFO_LENGTH];	// LFO FMS TABLE
 
 Ym2612Private::Ym2612Private(Ym2612 *q)
 	: q(q)
+	, int_cnt(0)	// copied into state.Inter_Cnt by every update(), also when no channel has run
 {
 	if (!isInit) {
 		// Initialize the static tables.
